@@ -51,6 +51,15 @@ type FieldDef struct {
 	Len  int64
 }
 
+func (r *Relation) hasField(name string) bool {
+	for _, fd := range r.Fields {
+		if fd.Name == name {
+			return true
+		}
+	}
+	return false
+}
+
 func (f *FieldDef) Validate(val interface{}) error {
 	switch f.DataType {
 	case TypeInt:
@@ -979,7 +988,16 @@ func (rs *RelationService) Insert(tableName string, cols []string, vals []interf
 		return walLogs, ErrColCountMismatch
 	}
 
+	// a value given for a column the table does not have, or a second value
+	// for the same column, has no place in the row: refuse it instead of
+	// dropping it
 	for i, col := range cols {
+		if _, ok := tuple.Vals[col]; ok {
+			return walLogs, fmt.Errorf("%w: %s", ErrFieldRepeated, col)
+		}
+		if !schema.hasField(col) {
+			return walLogs, fmt.Errorf("%w: %s", ErrFieldNotFound, col)
+		}
 		tuple.Vals[col] = vals[i]
 	}
 
